@@ -96,6 +96,14 @@ Fixpoint vi_loop (fuel : nat) (L : learner T) (q : list (list T)) : option (list
            if conv L q nq then Some q else vi_loop f L nq
   end.
 
+(* ---- the optimistic empirical model the property speaks of: known pairs use the empirical
+   rewards/transitions, unknown pairs are self-loops paying rmax; [bopt] is its optimality backup
+   on Q tables and [bopt_fixb] tests that a table is an exact fixed point of it ---- *)
+Definition bopt (L : learner T) (q : list (list T)) (s a : nat) : T :=
+  if known L s a then newq L q s a else rmax + gamma * vmax q s.
+Definition bopt_fixb (L : learner T) (q : list (list T)) : bool :=
+  forallbn nS (fun s => forallbn nA (fun a => neqb (untab2 q s a) (bopt L q s a))).
+
 (* ---- _observe ---- *)
 Definition observe (fuel : nat) (L : learner T) (e : step) : option (learner T) :=
   let '(s, a, _, _) := e in
